@@ -166,11 +166,28 @@ def run(rep, facts):
                 continue
             res = variant_of(r.ret)
             conds = [(ir.peel(e, casts=False), lab) for (e, lab) in nonconst_conds(r)]
+            # the record-boundary guard: both remaining-length counters are known to be zero (one test of their
+            # bit-or, or one test each), or one of them is known to be non-zero
             guard = None
+            zero_known = set()
             for (e, lab) in conds:
-                if e[0] == 'bin' and e[1] in ('Eq', 'Ne') and {'payload_rem', 'padding_rem'} <= {y[2] for y in ir.walk(e) if y[0] == 'field'} and cv(e[3]) == 0:
-                    t = (lab[0] == 'otherwise') if isinstance(lab, tuple) else None
-                    guard = t if e[1] == 'Eq' else (not t)
+                fact = ir.cmp_fact(e, lab)
+                if fact is None or fact[0] not in ('eq', 'ne'):
+                    continue
+                a_, b_ = fact[1], fact[2]
+                if cv(b_) != 0 and cv(a_) == 0:
+                    a_, b_ = b_, a_
+                if cv(b_) != 0:
+                    continue
+                flds = {y[2] for y in ir.walk(a_) if y[0] == 'field'} & {'payload_rem', 'padding_rem'}
+                if not flds:
+                    continue
+                if fact[0] == 'eq':
+                    zero_known |= flds
+                else:
+                    guard = False
+            if guard is None and zero_known == {'payload_rem', 'padding_rem'}:
+                guard = True
             writes = [(pl, val) for (pl, val, n, s_) in r.writes if pl[0] == 'field' and ir.peel(pl[1])[0] == 'param']
             if res == 'Err':
                 n_err += 1
